@@ -46,6 +46,8 @@ def check(c: Check):
     clause_h(c)
     from .common import sweep_records
     sweep_records(c, 'C15-rec', ['exactly_lib.impls.file_properties', 'exactly_lib.impls.types.files_matcher', 'exactly_lib.impls.types.file_matcher', 'exactly_lib.impls.types.files_source'], floor=3)
+    from .common import check_application_purity
+    check_application_purity(c, 'C15-i', ['exactly_lib.type_val_prims.matcher.matcher_base_class:MatcherWTrace', 'exactly_lib.type_val_prims.string_transformer:StringTransformer'], floor=25)
 
 
 class _NoInline(Hooks):
